@@ -1,4 +1,4 @@
-\* Universe T (thorough): terms of <= 3 operator applications, larger catalogues, two initial valuations.
+\* Universe T (thorough): terms of <= 2 operator applications over the larger catalogues (constants 3, 1/4 and a 2 that lives in GEKKO model 2; Python numbers 2, -1/2, 0; a raw GEKKO variable), two initial valuations; deeper terms come from the random driver.
 SPECIFICATION Spec
 CONSTANTS
   Consts <- ConstsB
@@ -9,7 +9,7 @@ CONSTANTS
   WithSqrt = TRUE
   WithRaw = TRUE
   SameNames = {0}
-  MaxBuild = 3
+  MaxBuild = 2
   MaxOps = 0
   OpKinds = {}
   RehomeTargets = {}
